@@ -326,6 +326,14 @@ def check_map(run, name, grp, coords, shape, exprs, descr, plan):
                 i.rate_quality(regressor="Decision Tree")
             if "refit" in what:
                 i.fit_model(weight_cp=0, range_x=[-2e-6, 2e-6])
+            if "edit" in what:
+                # a setting changed without a refit: the curve is unfitted
+                i.fit_properties["weight_cp"] = 3e-6
+            if "failed" in what:
+                try:
+                    i.fit_model(range_type="no such type")
+                except BaseException:
+                    pass
         qm = QMap(grp)
         hashes = {}
 
@@ -446,7 +454,7 @@ def maps(run, exprs, descr):
         cfgs += [((2, 4), "column", set()), ((5, 5), "random", {3, 4, 20}),
                  ((4, 1), "row", set())]
     kinds = ["none", "fit", "fit+rate", "fit+rate+refit", "unsuccessful",
-             "fit+rate"]
+             "fit+rate+edit", "fit+rate", "fit+rate+failed"]
     for ci, (shape, order, missing) in enumerate(cfgs):
         grp, coords = synthetic_group(shape, order, missing, seed=ci)
         plan = [kinds[(j + ci) % len(kinds)] for j in range(len(grp))]
@@ -469,7 +477,7 @@ def maps(run, exprs, descr):
         shape = (int(md["grid shape x"]), int(md["grid shape y"]))
         coords = [(int(i.metadata["grid index x"]),
                    int(i.metadata["grid index y"])) for i in grp]
-        plan = [["fit", "none", "fit+rate+refit", "fit+rate"][j % 4]
+        plan = [["fit", "fit+rate+edit", "fit+rate+refit", "fit+rate"][j % 4]
                 for j in range(len(grp))]
         check_map(run, f"recorded:{fn}", grp, coords, shape, exprs, descr,
                   plan)
